@@ -60,7 +60,7 @@ func block(t *task, o int) {
 
 //go:norace
 func released(t *task, o int) {
-	for i := 0; i < MaxTasks; i++ {
+	for i := 0; i < hiSlot; i++ {
 		if tasks[i].state == tsBlocked && tasks[i].blockedOn == o {
 			tasks[i].state = tsRunnable
 		}
@@ -119,7 +119,7 @@ func onceThunk() {
 func onceDone(t *task, oi int) {
 	objs[oi].held = false
 	objs[oi].owner = -1
-	for i := 0; i < MaxTasks; i++ {
+	for i := 0; i < hiSlot; i++ {
 		if tasks[i].state == tsBlocked && tasks[i].blockedOn == oi {
 			tasks[i].state = tsRunnable
 		}
@@ -323,4 +323,114 @@ func wgWait(w *sync.WaitGroup) {
 	for e.n > 0 {
 		poll(t)
 	}
+}
+
+// sync.Pool shims: a real sync.Pool hands items out per processor and, in race builds, drops a random
+// quarter of all Puts — neither can be seeded. Inside a simulation every pool is a LIFO stack owned by
+// the simulator; whether a Put is dropped (modelling eviction) is decided by the task's seeded stream.
+type poolEntry struct {
+	ptr   unsafe.Pointer
+	items []any
+	hb    uint32
+}
+
+var pools [64]poolEntry
+
+//go:norace
+func poolFind(p unsafe.Pointer) *poolEntry {
+	for i := range pools {
+		if pools[i].ptr == p {
+			return &pools[i]
+		}
+	}
+	for i := range pools {
+		if pools[i].ptr == nil {
+			pools[i].ptr = p
+			return &pools[i]
+		}
+	}
+	panic("zzsimrt: too many sync.Pools")
+}
+
+// PoolGet replaces p.Get().
+func PoolGet(p *sync.Pool) any {
+	if cur() == nil {
+		return p.Get()
+	}
+	e := poolFind(unsafe.Pointer(p))
+	if x, ok := poolPop(e); ok {
+		hbAcquire(&e.hb) // what the putter did to the item happens-before its reuse
+		return x
+	}
+	if p.New != nil {
+		return p.New()
+	}
+	return nil
+}
+
+// PoolPut replaces p.Put(x).
+func PoolPut(p *sync.Pool, x any) {
+	if cur() == nil {
+		p.Put(x)
+		return
+	}
+	if x == nil {
+		return
+	}
+	e := poolFind(unsafe.Pointer(p))
+	hbRelease(&e.hb)
+	poolPush(e, x)
+}
+
+//go:norace
+func poolPop(e *poolEntry) (any, bool) {
+	n := len(e.items)
+	if n == 0 {
+		return nil, false
+	}
+	x := e.items[n-1]
+	e.items[n-1] = nil
+	e.items = e.items[:n-1]
+	return x, true
+}
+
+//go:norace
+func poolPush(e *poolEntry, x any) {
+	t := cur()
+	if t != nil {
+		if t.mapRng == 0 {
+			t.mapRng = (cfg.Seed+uint64(idx(t))+7)*0x94d049bb133111eb | 1
+		}
+		if xorshift(&t.mapRng)%4 == 0 {
+			return // evicted
+		}
+	}
+	if len(e.items) < 256 {
+		e.items = append(e.items, x)
+	}
+}
+
+// GOMAXPROCS replaces runtime.GOMAXPROCS: inside a simulation the answer is a per-run knob.
+//
+//go:norace
+func GOMAXPROCS(n int) int {
+	if cur() == nil {
+		return realGOMAXPROCS(n)
+	}
+	return simProcs()
+}
+
+// NumCPU replaces runtime.NumCPU.
+//
+//go:norace
+func NumCPU() int {
+	if cur() == nil {
+		return realNumCPU()
+	}
+	return simProcs()
+}
+
+//go:norace
+func simProcs() int {
+	return []int{1, 2, 4, 16}[(cfg.Seed>>7)%4]
 }
